@@ -33,10 +33,20 @@ impl Interval {
     /// - `[lower, upper]` where `lower <= upper`
     /// - `[NaN, NaN]`
     ///
+    /// If exactly one bound is `NaN` (e.g. `0 * inf` or `inf - inf` while
+    /// computing one end of an interval with infinite bounds), the result is
+    /// the `NaN` interval: the operation is undefined somewhere in the region.
+    ///
     /// # Panics
-    /// Panics if the resulting interval would be invalid
+    /// Panics if `lower > upper`
     #[inline]
     pub fn new(lower: f32, upper: f32) -> Self {
+        if lower.is_nan() != upper.is_nan() {
+            return Self {
+                lower: f32::NAN,
+                upper: f32::NAN,
+            };
+        }
         assert!(
             upper >= lower || (lower.is_nan() && upper.is_nan()),
             "invalid interval [{lower}, {upper}]"
